@@ -294,15 +294,15 @@ class ClimatologyCheck(Case):
         days = [1577750400, 1577836800, 1582934400, 1592179200, 1609372800, 1609459200]  # 2019-12-31, 2020-01-01, 2020-02-29, 2020-06-15, 2020-12-31, 2021-01-01
         p, hz, hf = self.shape
 
-        def member(lo, hi, hz=hz, hf=hf):
-            m = {"period": p, "vlo": 0, "vhi": 1}
-            if p is None:
+        def member(lo, hi, hz=hz, hf=hf, period=p):
+            m = {"period": period, "vlo": 0, "vhi": 1}
+            if period is None:
                 m["tlo"], m["thi"] = lo, hi
-            elif p in ("week", "weekofyear"):
+            elif period in ("week", "weekofyear"):
                 m["tlo"], m["thi"] = (1, 9) if lo < hi else (25, 53)
-            elif p == "month":
+            elif period == "month":
                 m["tlo"], m["thi"] = (1, 2) if lo < hi else (6, 12)
-            elif p == "quarter":
+            elif period == "quarter":
                 m["tlo"], m["thi"] = (1, 1) if lo < hi else (2, 4)
             else:
                 m["tlo"], m["thi"] = (1, 60) if lo < hi else (167, 366)
@@ -330,6 +330,12 @@ class ClimatologyCheck(Case):
                                 m["tlo"], m["thi"] = m["thi"], m["tlo"]
                             ms2.append(m)
                         yield {"n": n, "x": list(xs), "z": list(zs), "t": ts, "members": ms2}
+        # members of different period kinds interleaved (configuration order must be kept across kinds):
+        # all three match 2020-02-29; the last one decides
+        q = "month" if p is None else None
+        inter = [dict(member(days[1], days[3], hz=False, hf=False), vlo=0, vhi=1), dict(member(days[1], days[3], hz=False, hf=False, period=q), vlo=-5, vhi=-1), dict(member(days[1], days[3], hz=False, hf=False), vlo=2, vhi=5)]
+        for order in (inter, inter[::-1], [inter[1], inter[0], inter[1]]):
+            yield {"n": 3, "x": [-2, H, 3], "z": [5, 5, 5], "t": [days[2]] * 3, "members": [dict(m_) for m_ in order], "keep": 1}
         # float32 values and depths sitting on span bounds that float32 cannot hold exactly
         import numpy as np
 
